@@ -4,6 +4,7 @@ import copy
 from hypothesis import strategies as st
 
 from ..drive import Driver, new_graph, call_real
+from ..gen import fresh as gen_fresh
 from . import pathcommon as pc
 from .common import safe
 
@@ -25,9 +26,9 @@ EPS = 1e-9
 
 
 def strategy(tier):
-    return st.tuples(pc.graph_strategy(classes=('DynGraph',), tier=tier, uni=(4, 6), max_ops=14), st.lists(st.integers(0, 2), min_size=8, max_size=8),
+    return st.tuples(pc.graph_strategy(classes=('DynGraph',), tier=tier, uni=(5, 7), max_ops=16, chains=True), st.lists(st.integers(0, 2), min_size=8, max_size=8),
                      st.lists(st.integers(0, 2), min_size=8, max_size=8), st.integers(1, 2), st.integers(1, 2),
-                     st.lists(st.sampled_from([0.5, 1, 2.5]), min_size=1, max_size=2, unique=True), st.sampled_from(PATH_TYPES),
+                     st.lists(st.sampled_from([0.5, 1, 2.5, 0.505, 1.234, 2]), min_size=1, max_size=2, unique=True), st.sampled_from(PATH_TYPES),
                      st.integers(0, 9), st.sampled_from(['id', 'id', 'id', 'off', 'before']), st.integers(0, 5), st.integers(0, 5)).map(
         lambda x: dict(x[0], lab1=x[1], lab2=x[2], nlabels=x[3], psize=min(x[4], x[3]), alphas=x[5], ptype=x[6], si=x[7], smode=x[8],
                        delta=x[9], perm=x[10]))
@@ -40,7 +41,8 @@ def build(case, node_map=None, value_map=None, uniform=False):
     """Rebuild the labelled graph (optionally with renamed nodes / label values)."""
     d = Driver(case)
     if node_map is not None:
-        d.nodes = [node_map[n] for n in d.nodes]
+        d.anodes = [node_map[n] for n in d.nodes]
+        d.nodes = [gen_fresh(n) for n in d.anodes]
     for op in case['ops']:
         r = d.step(op)
         if r['actual'] != r['expected']:
